@@ -26,10 +26,10 @@ def grid(tier):
         g.append(dict(nw=nw, nf=nf, mask=mask, mode=mode, K=k or steps_bound(nw, nt), ntrials=nt))
     add(1, 1, 0)                    # 1 worker, 2 trials -> 2 blocks
     add(1, 1, 0, 'det')
+    add(2, 1, 0)                    # 2 workers, 1 full block (about 6 minutes, 5 GB)
     if tier != 'quick':
         add(1, 1, 1)                # 3 blocks
         add(1, 2, 3)                # 4 blocks, two competing interior step lengths
-        add(2, 1, 0)                # 2 workers, 1 block
         add(3, 1, 0)                # more workers than trial steps: one worker never runs
         add(2, 1, 1)                # 2 workers, 2 blocks, second block half empty
         add(1, 1, 1, 'det')
@@ -55,7 +55,9 @@ def lib_for(nw, race):
     return once('c12_lib_%d_%d' % (nw, race), build)
 
 def unwindset(binary, c):
-    irb = c['nf'] + c['nw'] + 3 + c['ntrials']
+    # loops of the translated code run over free coefficients, workers, trial steps or blocks: the largest of these plus the exit test
+    # (unwinding assertions report a bound that is too small); a loose bound costs junk iterations in every re-executed segment
+    irb = max(c['nf'], c['nw'], c['ntrials']) + 2
     us = []
     for lid, fn in list_loops(binary):
         if fn.startswith(('ir_walk', 'ir_eval', 'ir_get')): b = irb
